@@ -102,6 +102,15 @@ func selfTest() (problems []string, fired int) {
 	ruleF1(c, "F1", 0)
 	ruleF2(c, "F2")
 	ruleK1w(c, "K1w", 0)
+	for _, fn := range c.moduleFuncs() {
+		for _, s := range errorTestedAfterValueSites(c, fn) {
+			r.Finding("E1v", s.Key, "-", s.Desc)
+		}
+	}
+	ruleP11(c, "P11")
+	ruleA10(c, "A10")
+	ruleG11(c, "G11")
+	ruleW4b(c, "W4b")
 	// json
 	ruleJ124(c)
 	// map order
@@ -134,8 +143,10 @@ func selfTest() (problems []string, fired int) {
 		{"J1", "EscapesHTML"}, {"J2", "LossyNumber"}, {"J4", "IntoMap"},
 		{"G5", "MapOrder"},
 		{"X1", "MutatesInput"}, {"G1", "WritesGlobal"},
+		{"E1s", "SwallowsByBreak"}, {"E1v", "ValueBeforeError"}, {"P11", "FollowsAliasDeep"}, {"PF", "OverridesPrefsForRecursion"},
+		{"A10", "FreshAnchorTable"}, {"G11", "ReadsFlagForOutput"}, {"W4b", "NarrowsMode"},
 	}
-	mustNot := []selfExpect{{"P8", "UsesResultAfterFullCheck"}, {"B1", "KeepsLevel"}, {"F2", "RunesAsRunes"}, {"K1w", "FiltersOwnChildren"}, {"P4v", "VarIndexRange"}, {"PF", "ForwardsPrefs"}, {"L1", "FreshLength"}, {"X1", "MutatesCopy"}, {"P4", "GuardedIndex"}, {"X1", "CandidateNode.Copy"}}
+	mustNot := []selfExpect{{"P8", "UsesResultAfterFullCheck"}, {"B1", "KeepsLevel"}, {"F2", "RunesAsRunes"}, {"K1w", "FiltersOwnChildren"}, {"P4v", "VarIndexRange"}, {"PF", "ForwardsPrefs"}, {"L1", "FreshLength"}, {"X1", "MutatesCopy"}, {"P4", "GuardedIndex"}, {"X1", "CandidateNode.Copy"}, {"P11", "FollowsAliasGuarded"}, {"G11", "PrintedAnything"}, {"G11", "ResultsPrinter.Note"}, {"E1s", "ValueBeforeError"}}
 	have := map[string][]string{}
 	for _, o := range r.obligs {
 		if o.Verdict == "finding" {
